@@ -807,7 +807,7 @@ class Fn:
                 continue  # compiler-inserted overflow / bounds / division checks carry no program logic
             a = atom_of(cond, val, self.switch_ty(s))
             if a is not None:
-                out.append((s, a))
+                out.append((s, untry(a)))
         return out
 
     # ---- paths
@@ -1138,6 +1138,35 @@ def canon(t):
 
 _ORD_IS = {'Less': 'lt', 'Equal': 'eq', 'Greater': 'gt'}
 _ORD_ISNOT = {'Less': 'ge', 'Equal': 'ne', 'Greater': 'le'}
+VARIANT_PRESERVING = ('std::option::Option::map', 'std::option::Option::as_ref', 'std::option::Option::as_mut', 'std::option::Option::cloned',
+                      'std::option::Option::copied', 'std::option::Option::inspect', 'std::option::Option::as_deref', 'std::option::Option::as_deref_mut',
+                      'std::result::Result::map', 'std::result::Result::map_err', 'std::result::Result::as_ref', 'std::result::Result::as_mut',
+                      'std::result::Result::inspect', 'std::result::Result::inspect_err')
+
+
+def untry(a):
+    """normalise the subject of a variant test: `x?` tests `Try::branch(x)` (Continue/Break of an Option is Some/None of x, of a
+    Result Ok/Err); `x.map(f)`, `x.as_ref()` ... are in the same variant as x"""
+    for _ in range(6):
+        if not (a and a[0] == 'is' and a[1][0] == 'call' and a[1][2]):
+            return a
+        n = a[1][1]
+        if n.endswith('std::ops::Try>::branch'):
+            if 'Option' in n:
+                a = ('is', a[1][2][0], {'Continue': 'Some', 'Break': 'None'}.get(a[2], a[2]))
+                continue
+            if 'Result' in n:
+                a = ('is', a[1][2][0], {'Continue': 'Ok', 'Break': 'Err'}.get(a[2], a[2]))
+                continue
+        if n in VARIANT_PRESERVING:
+            a = ('is', a[1][2][0], a[2])
+            continue
+        return a
+    return a
+
+
+
+
 INT_TYS = {'u8', 'u16', 'u32', 'u64', 'u128', 'usize', 'i8', 'i16', 'i32', 'i64', 'i128', 'isize', 'char'}
 
 
